@@ -14,6 +14,8 @@ R4  column <-> field agreement: SELECT list and row indices used by from_row
     agree by name; ORDER BY present on the unconditional path.
 R5  spatial compatibility rule counts the four spatial kinds in each of the
     three positions.
+R7  bounding-box bounds reach the SQL parameters exactly as given (BoundingBox
+    is a plain value; no method rewrites its fields).
 R6  date bounds inclusive; every-nth anchored at the start day; limit/offset.
 """
 
@@ -305,6 +307,7 @@ def rule_placeholders(ctx):
                                f'the {role}_* filter is applied to the {other} column', line=t.lineno)
     # query-level conditions: per block, '?' appended == params pushed
     qm = prog.module(Q)
+    pending = []
     for qn in ('QueryBase._common_conditions', 'Query.to_sql'):
         fq = qm.func(qn)
         blocks = {}
@@ -344,11 +347,16 @@ def rule_placeholders(ctx):
                         und = und or pc is None
                         p += pc or Counter()
             if und:
-                ctx.undecided('C14-R3', fq, norm(blk[0])[:60], 'cannot count symbolically')
+                pending.append((fq, norm(blk[0])[:60]))
+                continue
             ok = +q == +p
             ctx.ob('C14-R3', fq, f'block at `{norm(blk[0])[:50]}`', ok,
                    f'{dict(+q)} placeholders = {dict(+p)} parameters' if ok else
-                   f'{dict(+q)} placeholders but {dict(+p)} parameters pushed in the same block', line=blk[0].lineno)
+                   (f'{dict(+q)} placeholders but {dict(+p)} parameters pushed in the same block: the condition list and the '
+                    'parameter list are built in parallel, so a condition whose text is appended elsewhere binds the values of '
+                    'its neighbours (e.g. the sample fraction to the day modulus)'), line=blk[0].lineno)
+    for fq, what in pending:
+        ctx.undecided('C14-R3', fq, what, 'cannot count symbolically')
 
 
 # ---------------------------------------------------------------- R4..R6 ---
@@ -586,7 +594,37 @@ def rule_cursor(ctx):
     ctx.ob('C14-R8', yf, 'every row is converted by the query\'s own result type', ok, 'result_type.from_row(row)' if ok else 'row conversion changed', nontrivial=False)
 
 
+def rule_criteria_values(ctx):
+    """R7: the numbers a caller puts into a bounding box are the numbers compared in SQL: BoundingBox is a plain
+    value (no method rewrites its fields) and _bounding_box_condition passes the four bounds as they are."""
+    fm = ctx.prog.module(F)
+    bb = fm.cls('BoundingBox')
+    fields = set(bb.annotated_fields())
+    ctx.floor('C14-R7', len(fields), 4, 'BoundingBox fields')
+    n = 0
+    for meth in bb.methods.values():
+        for t, st, how in stores_to(meth.node):
+            if isinstance(t, ast.Attribute) and norm(t.value) == 'self' and t.attr in fields:
+                n += 1
+                ctx.ob('C14-R7', meth, f'{norm(st)[:60]}', False,
+                       (f'BoundingBox.{t.attr} is rewritten after construction: the box that is compared in SQL is not the box '
+                        'the caller asked for (wrapping an eastern edge of 180° to −180° makes `longitude <= ?` match nothing)'),
+                       line=st.lineno)
+    ctx.ob('C14-R7', (fm.relpath, 'BoundingBox'), f'{n} method(s) rewrite the bounds', n == 0,
+           'the bounds are stored as given' if n == 0 else 'see above', nontrivial=False)
+    bc = fm.func('Filter._bounding_box_condition')
+    uses = [x for x in ast.walk(bc.node) if isinstance(x, ast.Attribute) and x.attr in fields]
+    ctx.floor('C14-R7/uses', len(uses), 4, 'bounds used by _bounding_box_condition')
+    for u in uses:
+        p = getattr(u, '_parent', None)
+        ok = isinstance(p, (ast.List, ast.Tuple))
+        ctx.ob('C14-R7', bc, f'bound {norm(u)} passed as a parameter unchanged', ok,
+               'element of the parameter list' if ok else f'the bound enters an expression (`{norm(p)[:50]}`) before being compared',
+               line=u.lineno, nontrivial=False)
+
+
 def run(ctx):
+    rule_criteria_values(ctx)
     rule_cursor(ctx)
     rule_is_set(ctx)
     rule_pure(ctx)
